@@ -44,6 +44,103 @@ class ObjArr:
         self.shape = (len(self.items),)
 
 
+class FlatSeq:
+    """itertools.chain.from_iterable over a sequence (symbolic length) of sequences (symbolic lengths): the concatenation, kept as
+    (outer sequence, element map).  Supported consumers: list(), np.abs() (elementwise on the rows), max()/min() with a key."""
+
+    def __init__(self, outer, fmap=None):
+        self.outer, self.fmap = outer, fmap
+
+    def elem(self, d, s):
+        inner = cur().as_iterable(self.outer.get(d))
+        v = inner.get(s) if isinstance(inner, SymSeq) else cur().getitem(inner, s)
+        return self.fmap(v) if self.fmap else v
+
+    def inner_len(self, d):
+        inner = cur().as_iterable(self.outer.get(d))
+        return inner.n if isinstance(inner, SymSeq) else len(inner)
+
+    def mapped(self, f):
+        g = self.fmap
+        return FlatSeq(self.outer, (lambda v: f(g(v))) if g else f)
+
+
+def flat_extreme(e, fs, which, key):
+    """max/min over a FlatSeq: an element (witness depth wd, position ws) whose key bounds every key (D23: value-level facts only)"""
+    nd = fs.outer.n
+    wd = e.fresh_int("wd_" + which)
+    ws = e.fresh_int("ws_" + which)
+    d, s = z3.Int(e.uniq("fd")), z3.Int(e.uniq("fs"))
+    some = z3.Exists([d], z3.And(d >= 0, d < to_z3(lift(nd)), to_z3(lift(e.under(z3.And(d >= 0, d < to_z3(lift(nd))), lambda: fs.inner_len(Num(d)), default=0))) > 0))
+    if not e.must(some):
+        if e.branch(z3.Not(some)):
+            e.py_raise("ValueError", "%s() arg is an empty sequence" % which)
+    e.axiom(z3.And(wd.t >= 0, wd.t < to_z3(lift(nd))))
+    e.axiom(z3.And(ws.t >= 0, ws.t < to_z3(lift(fs.inner_len(wd)))))
+    best = fs.elem(wd, ws)
+    kb = e.call(key, [best], {}) if key else best
+    rng = z3.And(d >= 0, d < to_z3(lift(nd)))
+
+    def body():
+        ln = fs.inner_len(Num(d))
+        rs = z3.And(s >= 0, s < to_z3(lift(ln)))
+        def cmpk():
+            x = fs.elem(Num(d), Num(s))
+            kx = e.call(key, [x], {}) if key else x
+            return zb((lift(kx) <= kb) if which == "max" else (lift(kx) >= kb))
+        return z3.Implies(rs, e.under(rs, cmpk))
+    e.axiom(z3.ForAll([d, s], z3.Implies(rng, e.under(rng, body))))
+    return best
+
+
+class TriuIdx:
+    """np.triu_indices_from(a, k): the index pairs (i, j) with j >= i + k of an n x m array"""
+
+    def __init__(self, n, m, k):
+        self.n, self.m, self.k = n, m, k
+
+
+class PairBag:
+    """a[np.triu_indices_from(a, k)]: the bag of entries above the k-th diagonal; comparisons are elementwise, np.any / np.all quantify"""
+
+    def __init__(self, idx, fn):
+        self.idx, self.fn = idx, fn
+
+    def _cmp(self, other, op):
+        if isinstance(other, (Arr, PairBag, list, tuple)):
+            raise Unsupported("comparison of a triangular selection with a non-scalar")
+        f = self.fn
+        return PairBag(self.idx, lambda i, j: op(lift(f(i, j)), other))
+
+    def __lt__(self, o): return self._cmp(o, lambda a, b: a < b)
+    def __le__(self, o): return self._cmp(o, lambda a, b: a <= b)
+    def __gt__(self, o): return self._cmp(o, lambda a, b: a > b)
+    def __ge__(self, o): return self._cmp(o, lambda a, b: a >= b)
+
+    def exists(self):
+        e = cur()
+        i, j = z3.Int(e.uniq("ti")), z3.Int(e.uniq("tj"))
+        rng = z3.And(i >= 0, i < to_z3(lift(self.idx.n)), j >= i + self.idx.k, j >= 0, j < to_z3(lift(self.idx.m)))
+        body = e.under(rng, lambda: zb(self.fn(Num(i), Num(j))))
+        return BoolV(z3.Exists([i, j], z3.And(rng, body)))
+
+
+class MaskedArr:
+    def __init__(self, arr, mask):
+        self.arr, self.mask = arr, mask
+
+    @property
+    def data(self):
+        return self.arr
+
+
+class _MA:
+    def masked_less(self, x, v):
+        if not isinstance(x, Arr):
+            raise Unsupported("masked_less of non-array")
+        return MaskedArr(x, x < v)
+
+
 class AppendList(SymSeq):
     """python list that is only appended to, with a symbolic number of elements"""
 
@@ -384,6 +481,8 @@ def interp_term(eng, key, x, a, b, m, row):
 def _minmax(which):
     def f(*args, key=None, default=MISSING):
         e = cur()
+        if len(args) == 1 and isinstance(args[0], FlatSeq):
+            return flat_extreme(e, args[0], which, key)
         if len(args) == 1:
             seq = e.as_iterable(args[0])
             if isinstance(seq, SymSeq) and not isinstance(seq.n, int):
@@ -495,6 +594,8 @@ def _enumerate(seq, start=0):
 
 def _list(x=()):
     e = cur()
+    if isinstance(x, FlatSeq):
+        return x
     if isinstance(x, Arr) and x.ndim == 1 and not isinstance(x.shape[0], int):
         # list(1-d array of symbolic length): a fresh mutable sequence of its elements (modelled as a fresh buffer)
         c = A.fresh_copy(x)
@@ -989,6 +1090,9 @@ class _NP:
 
     # -- elementwise
     def abs(self, x):
+        if isinstance(x, FlatSeq):
+            # np.abs(list of [x, y] rows) is the 2-d array of absolute values; its rows are what iteration yields
+            return x.mapped(lambda row: [num_abs(v) for v in row] if isinstance(row, (list, tuple)) else num_abs(row))
         if isinstance(x, Arr):
             return elementwise(num_abs, x)
         if isinstance(x, (list, tuple)):
@@ -1129,6 +1233,12 @@ class _NP:
     # -- reductions
     def sum(self, x, axis=None):
         e = cur()
+        if isinstance(x, MaskedArr):
+            # sums over the unmasked entries; only the shape matters to the callers under contract (values left unconstrained: sound)
+            if axis == 0 and x.arr.ndim == 2:
+                r = MaskedArr(A.fresh_symbolic("masked_colsum", (x.arr.shape[1],), dtype=x.arr.kind, eng=e), None)
+                return r
+            raise Unsupported("np.sum of a masked array with axis=%r" % (axis,))
         if isinstance(x, ObjArr):
             if axis is not None or not x.items:
                 raise Unsupported("np.sum of an object array with axis / empty")
@@ -1160,7 +1270,8 @@ class _NP:
             n = x.shape[0]
             if isinstance(n, int):
                 return Arr((x.shape[1],), lambda idx: _csum([f((r, idx[0])) for r in range(n)]), dtype=x.kind)
-            raise Unsupported("column sums of symbolic height")
+            num = (lambda v: ite(v, 1, 0)) if x.kind == "bool" else (lambda v: v)
+            return Arr((x.shape[1],), lambda idx: e_sum(e, n, lambda k: num(f((k, idx[0])))), dtype="int" if x.kind in ("bool", "int") else "float")
         if x.ndim == 3 and axis in (2, -1):
             n = x.shape[2]
             if isinstance(n, int):
@@ -1295,6 +1406,8 @@ class _NP:
 
     def any(self, x, axis=None):
         e = cur()
+        if isinstance(x, PairBag):
+            return x.exists()
         if not isinstance(x, Arr):
             return e.as_bool(x)
         inv = elementwise(lambda v: b_not(e.as_bool(v)), x, dtype="bool")
@@ -1331,6 +1444,28 @@ class _NP:
         e.axiom(e.forall(n, lambda k: (lift(f((k,))) <= m) if which == "max" else (lift(f((k,))) >= m), name="aq"))
         e.axiom(e.forall(w, lambda k: (lift(f((k,))) < m) if which == "max" else (lift(f((k,))) > m), name="afq"))
         return w
+
+    def triu_indices_from(self, a, k=0):
+        if not (isinstance(a, Arr) and a.ndim == 2) or not isinstance(k, int):
+            raise Unsupported("triu_indices_from")
+        return TriuIdx(a.shape[0], a.shape[1], k)
+
+    def delete(self, a, obj, axis=None):
+        """np.delete(a, i, axis) for one integer index on a 2-d array: a fresh array without row / column i"""
+        e = cur()
+        if not (isinstance(a, Arr) and a.ndim == 2 and axis in (0, 1)) or isinstance(obj, (Arr, list, tuple, slice)):
+            raise Unsupported("np.delete form")
+        n = a.shape[axis]
+        e.definedness(z3.And(to_z3(lift(obj)) >= -to_z3(lift(n)), to_z3(lift(obj)) < to_z3(lift(n))), "np.delete: index out of bounds", force=True)
+        r = ite(lift(obj) >= 0, obj, lift(obj) + n)
+        f = a.snapshot_fn()
+        shape = (n - 1, a.shape[1]) if axis == 0 else (a.shape[0], n - 1)
+        sh = lambda i: lift(i) + ite(lift(i) >= r, 1, 0)
+        return Arr(shape, (lambda idx: f((sh(idx[0]), idx[1]))) if axis == 0 else (lambda idx: f((idx[0], sh(idx[1])))), dtype=a.kind)
+
+    @property
+    def ma(self):
+        return _MA()
 
     # -- mutation helpers
     def fill_diagonal(self, a, val):
@@ -1613,6 +1748,16 @@ class _Itertools:
                     raise Unsupported("chain over symbolic sequence")
                 out.extend(list(t))
             return out
+    _concrete_from_iterable = chain.from_iterable
+
+    @staticmethod
+    def _from_iterable(x):
+        e = cur()
+        outer = e.as_iterable(x)
+        if isinstance(outer, SymSeq) and not isinstance(outer.n, int):
+            return FlatSeq(outer)
+        return _Itertools._concrete_from_iterable(x)
+    chain.from_iterable = _from_iterable
 
     def product(self, *a):
         import itertools
